@@ -12,7 +12,8 @@ from ..common import Ctx
 from ..vloop import VLoop
 
 THEOREMS = ["C20_wait_ends_cleanly", "C20_invariant_everywhere", "C20_wait_timer_ends", "C20_duplicate_match_is_noop",
-            "C20_old_timeout_refuted", "C20_now_timeout_clean"]
+            "C20_old_timeout_refuted", "C20_now_timeout_clean", "C20_no_loop_exceptions", "C20_old_repeat_refuted",
+            "C20_phases_exclusive", "C20_offer_is_not_confirm"]
 
 PRELUDE = ("From Coq Require Import List Bool Arith.\nFrom RV Require Import M_Bind.\nImport ListNotations.\n"
            "Set Printing Width 1000000.\nSet Printing Depth 1000000.\n"
@@ -164,8 +165,9 @@ def run(ctx: Ctx) -> None:
             ctx.violation(f"wait-ends-with:{case['outcome']}", "a binding wait did not end with the awaited packet or a binding error", case, "schedule")
         if res["binding"] and row[0] in (2, 3, 9):
             ctx.violation("still-binding-after-failed-wait", "after a failed wait the device is still 'binding': no new attempt can start", case, "schedule")
-        if [e for e in errs if e != "InvalidStateError"] or (errs and sum(1 for _, k in s["msgs"] if k == "match") < 2):
-            ctx.violation("loop-exception-in-wait:" + ",".join(sorted(set(errs))), "an exception was left in the event loop by a binding wait (no packet was repeated)", case, "schedule")
+        if errs:
+            rep = "with-repeats" if sum(1 for _, k in s["msgs"] if k == "match") >= 2 else "without-repeats"
+            ctx.violation("loop-exception-in-wait:" + ",".join(sorted(set(errs))) + ":" + rep, "an exception was left in the event loop by a binding wait", case, "schedule")
     if built:
         files = {"x": PRELUDE + "".join(f"Eval vm_compute in ({scn_to_coq(s)}).\n" for s in scns)}
         res = common.coq_eval("C20", files, timeout=300)
@@ -179,7 +181,49 @@ def run(ctx: Ctx) -> None:
                            f"{len(bad)} of {len(impl)} differ; first: {scns[bad[0]]} model {rows[bad[0]]} implementation {impl[bad[0]]}" if bad else "")
     else:
         ctx.obligation("correspondence:wait-step", False, "correspondence", "model not built")
+    phase_correspondence(ctx, built)
     handshakes(ctx, 150 if thorough else 40)
+
+
+def phase_correspondence(ctx: Ctx, built: bool) -> None:
+    """BindStateBase.is_phase on real packets of every (code, verb, destination kind) vs the model."""
+    import ramses_rf.binding_fsm as B  # noqa: PLC0415
+    from ramses_tx.command import Command  # noqa: PLC0415
+
+    src = "07:222222"
+    codes = {"K1FC9": ("1FC9", "0012601CA6B6"), "K10E0": ("10E0", "000001C8380F0100F1FF070B07E6030507E15438375246323032350000000000000000"[:76]), "KOther": ("1260", "0013FF")}
+    dsts = {"DSelf": src, "DAll": "63:262142", "DOther": "01:111111"}
+    verbs = {"PI": " I", "PW": " W", "PRQ": "RQ", "PRP": "RP"}
+    phases = {"Tender": B.BindPhase.TENDER, "Accept": B.BindPhase.ACCEPT, "Affirm": B.BindPhase.AFFIRM, "Ratify": B.BindPhase.RATIFY}
+    cases, want = [], []
+    for kc, (code, pl) in codes.items():
+        for kv, verb in verbs.items():
+            for kd, dst in dsts.items():
+                a = f"{src} --:------ {src}" if kd == "DSelf" else f"{src} {dst} --:------"
+                try:
+                    cmd = Command(f"{verb} --- {a} {code} {len(pl) // 2:03d} {pl}")
+                except Exception:  # noqa: BLE001, S112
+                    continue
+                for kp, ph in phases.items():
+                    cases.append(f"is_phase {kc} {kv} {kd} {kp}")
+                    want.append(bool(B.BindStateBase.is_phase(cmd, ph)))
+                    ctx.case(("is_phase", kc, kv, kd, kp), True, "phase-classification")
+                    if kp in ("Accept", "Affirm") and want[-1] and B.BindStateBase.is_phase(cmd, B.BindPhase.TENDER):
+                        ctx.violation(f"offer-taken-for-{kp.lower()}", f"a packet that is an offer ({verb} {a} {code}) is also recognised as the {kp.lower()} phase: "
+                                      "a third party's offer can end a wait for that packet", {"frame": str(cmd), "phase": kp}, "input")
+    if not built:
+        ctx.obligation("correspondence:is_phase", False, "correspondence", "model not built")
+        return
+    res = common.coq_eval("C20ph", {"x": PRELUDE + "Eval vm_compute in [" + "; ".join(cases) + "].\n"}, timeout=300)
+    rc, out = res["x"]
+    m = re.search(r"=\s*\[(.*?)\]\s*:\s*list bool", out, flags=re.S)
+    if rc or not m:
+        ctx.obligation("correspondence:is_phase", False, "correspondence", out[-400:])
+        return
+    got = [x.strip() == "true" for x in m.group(1).split(";")]
+    bad = [(c, g, w) for c, g, w in zip(cases, got, want) if g != w]
+    ctx.obligation("correspondence:is_phase", not bad and len(got) == len(cases), "correspondence",
+                   f"{len(bad)} of {len(cases)} differ; first: {bad[0][0]} model {bad[0][1]} implementation {bad[0][2]}" if bad else f"{len(cases)} (code, verb, destination, phase) combinations agree")
 
 
 def handshakes(ctx: Ctx, n: int) -> None:
@@ -195,7 +239,8 @@ def handshakes(ctx: Ctx, n: int) -> None:
         plan = {"repeat": rng.choice([1, 1, 2, 3]), "delay": rng.choice([G, 2 * G, 0.5]),
                 "lose": rng.choice([None, None, None, "offer", "accept", "confirm"]),
                 "fail_send": rng.choice([None, None, None, None, "offer", "accept", "confirm"]),
-                "third_party": rng.random() < 0.3, "lifo": rng.random() < 0.3,
+                "third_party": rng.choice([None, None, "offer-self", "offer-all", "offer-all", "accept"]),
+                "third_party_at": rng.choice([0.1, 0.2 + G, 0.2 + 3 * G, 0.2 + 0.5 + G, 1.3]), "lifo": rng.random() < 0.3,
                 "resp_late": rng.choice([0.0, 0.0, 1.0, 4.9])}
         loop = VLoop(lifo=plan["lifo"])
         asyncio.set_event_loop(loop)
@@ -254,10 +299,15 @@ def handshakes(ctx: Ctx, n: int) -> None:
                 r, s = await asyncio.gather(resp(), supp())
                 return r, s, loop.time() - t0
 
-            if plan["third_party"]:   # another supplicant's offer, after ours: every binding device sees offers
+            if plan["third_party"]:   # another pairing going on nearby: every binding device sees its offers (dispatcher routing)
                 from ramses_tx.command import Command  # noqa: PLC0415
-                stray = Message._from_cmd(Command.put_bind(" I", "07:888888", ["1260"], dst_id="07:888888"))
-                loop.call_later(0.2 + plan["delay"] + 2 * G, lambda: [c.rcvd_msg(stray) for c in ctxs.values() if c.is_binding])
+                frame = {"offer-self": " I --- 07:888888 --:------ 07:888888 1FC9 006 0012601DCEB8",
+                         "offer-all": " I --- 29:158183 63:262142 --:------ 1FC9 006 0012607669E7",
+                         "accept": " W --- 01:999999 07:888888 --:------ 1FC9 006 0012600743AF"}[plan["third_party"]]
+                stray = Message._from_cmd(Command(frame))
+                offers_only = plan["third_party"] != "accept"     # an accept is addressed: only its destination would see it
+                for k in range(3):
+                    loop.call_later(plan["third_party_at"] + plan["delay"] * k, lambda: [c.rcvd_msg(stray) for c in ctxs.values() if c.is_binding and offers_only])
             out["first"] = await attempt(1)
             await asyncio.sleep(6)   # any state timer has expired by now
             out["binding_after"] = {k: c.is_binding for k, c in ctxs.items()}
@@ -280,6 +330,8 @@ def handshakes(ctx: Ctx, n: int) -> None:
         case = {"plan": plan, "respondent": r[0] if r[0] == "ok" else type(r[1]).__name__, "supplicant": s[0] if s[0] == "ok" else type(s[1]).__name__,
                 "duration_s": dur, "loop_exceptions": errs}
         clean = not plan["lose"] and not plan["fail_send"] and plan["resp_late"] < 0.2   # the respondent listens before the offer
+        if plan["third_party"] and plan["third_party"].startswith("offer") and plan["third_party_at"] <= 0.2 + plan["delay"] + G:
+            clean = False   # a respondent legitimately takes the first offer it hears: the third party's came first
         for role, res in (("respondent", r), ("supplicant", s)):
             if res[0] == "exc":
                 e = res[1]
@@ -305,14 +357,10 @@ def handshakes(ctx: Ctx, n: int) -> None:
             ctx.violation("retry-after-attempt-fails", "a new, undisturbed attempt after the first one does not succeed",
                           {**case, "second": [r2[0] if r2[0] == "ok" else type(r2[1]).__name__ + ": " + str(r2[1])[:80],
                                               s2[0] if s2[0] == "ok" else type(s2[1]).__name__ + ": " + str(s2[1])[:80]]}, "schedule")
-        other = [e for e in errs if e not in ("InvalidStateError", "BindingFlowFailed")]   # never-awaited expiry futures are logged only
+        other = [e for e in errs if e != "BindingFlowFailed"]   # never-awaited expiry futures are logged only
         if other:
-            ctx.violation("loop-exception-in-handshake:" + ",".join(sorted(set(other))), "an exception was left in the event loop", case, "schedule")
-        elif "InvalidStateError" in errs and plan["repeat"] == 1 and not plan["third_party"]:
-            ctx.violation("loop-exception-in-handshake:InvalidStateError-without-repeats", "InvalidStateError in the loop although no frame was repeated", case, "schedule")
-        elif errs:
-            ctx.reobserved.add("repeat-logs-InvalidStateError")
-            ctx.dist["handshake-with-InvalidStateError-from-repeats"] += 1
+            rep = "with-repeats" if plan["repeat"] > 1 or plan["third_party"] else "without-repeats"
+            ctx.violation("loop-exception-in-handshake:" + ",".join(sorted(set(other))) + ":" + rep, "an exception was left in the event loop", case, "schedule")
 
 
 def replay(case: dict) -> int:
